@@ -228,6 +228,18 @@ func (cl *Loader) loadDir(dir string) (map[string]interface{}, error) {
 			return nil, fmt.Errorf("%s: %v", importFile, err)
 		}
 
+		// a file that has imports of its own comes back with string-keyed
+		// mappings (see load); the files of one directory must agree before
+		// they are merged
+		if hasStringKeyedMaps(cm) || hasStringKeyedMaps(cml) {
+			for k, v := range cm {
+				cm[k] = stringKeyedMaps(v)
+			}
+			for k, v := range cml {
+				cml[k] = stringKeyedMaps(v)
+			}
+		}
+
 		err = mergo.Merge(&cm, cml, mergo.WithOverride, mergo.WithAppendSlice, mergo.WithTypeCheck)
 		if err != nil {
 			return nil, fmt.Errorf("%s: %v", importFile, err)
@@ -329,6 +341,25 @@ func stringKeyedMaps(v interface{}) interface{} {
 	}
 
 	return v
+}
+
+// hasStringKeyedMaps tells whether the sections of a raw configuration are
+// already map[string]interface{} (JSON, TOML, or converted by stringKeyedMaps)
+func hasStringKeyedMaps(m map[string]interface{}) bool {
+	for _, v := range m {
+		switch x := v.(type) {
+		case map[string]interface{}:
+			return true
+		case []interface{}:
+			for _, e := range x {
+				if _, ok := e.(map[string]interface{}); ok {
+					return true
+				}
+			}
+		}
+	}
+
+	return false
 }
 
 func (cl *Loader) decode(cm map[string]interface{}) (*configDefinition, error) {
